@@ -317,11 +317,55 @@ func (r *rewriter) rewriteForRange(pkg loader.Pkg, fr *ast.RangeStmt) *ast.ForSt
 
 	init := X.Define(iter, fr.X)
 	cond := X.Call(next)
-	body := X.Block1(
-		X.Assign(fr.Tok, fr.Key, X.Call(current)),
-		fr.Body.List...,
-	)
+	assign := X.Assign(fr.Tok, fr.Key, X.Call(current))
+	body := X.Block1(assign, fr.Body.List...)
+	if fr.Tok == token.DEFINE && redeclares(fr.Body, fr.Key) {
+		// keep the body in its own scope, as in the source:
+		// for v := range it { v := ... }  =>  { v := it.Current(); { v := ... } }
+		body = X.Block(assign, fr.Body)
+	}
 	return X.ForStmt(init, cond, nil, body)
+}
+
+// whether the key of the range is declared again at the top level of the loop body
+func redeclares(body *ast.BlockStmt, key ast.Expr) bool {
+	id, ok := key.(*ast.Ident)
+	if !ok || id.Name == "_" {
+		return false
+	}
+	for _, stmt := range body.List {
+		switch s := stmt.(type) {
+		case *ast.AssignStmt:
+			if s.Tok != token.DEFINE {
+				continue
+			}
+			for _, lhs := range s.Lhs {
+				if l, ok := lhs.(*ast.Ident); ok && l.Name == id.Name {
+					return true
+				}
+			}
+		case *ast.DeclStmt:
+			gen, ok := s.Decl.(*ast.GenDecl)
+			if !ok {
+				continue
+			}
+			for _, spec := range gen.Specs {
+				switch spec := spec.(type) {
+				case *ast.ValueSpec:
+					for _, n := range spec.Names {
+						if n.Name == id.Name {
+							return true
+						}
+					}
+				case *ast.TypeSpec:
+					if spec.Name.Name == id.Name {
+						return true
+					}
+				}
+			}
+		}
+	}
+	return false
 }
 
 // ↓↓↓↓↓↓↓↓↓↓↓↓↓↓↓↓↓↓↓↓↓↓ Rewrite co.Iter ↓↓↓↓↓↓↓↓↓↓↓↓↓↓↓↓↓↓↓↓↓↓
